@@ -91,8 +91,92 @@ def in_frame(fr_, ab):
     return X.add(p0, X.add(X.mul(F(ab[0]), u), X.mul(F(ab[1]), v)))
 
 
+# vertices whose rounded-float hashes collide in CPython (hash(-1.0) == hash(-2.0)): (-1,a,b) / (-2,a,b) and
+# (-1,-2,c) / (-2,-1,c) with a, b, c in {0, 1}, in any assignment of the three axes
+def _quirk_points(draw):
+    perm = draw(st.sampled_from(list(itertools.permutations(range(3)))))
+
+    def pt(x, a, b):
+        q = [F(0)] * 3
+        q[perm[0]], q[perm[1]], q[perm[2]] = F(x), F(a), F(b)
+        return tuple(q)
+
+    core = [pt(x, a, b) for x in (-1, -2) for a in (0, 1) for b in (0, 1)] + [pt(-1, -2, 0), pt(-2, -1, 0), pt(-1, -2, 1), pt(-2, -1, 1)]
+    extra = [pt(0, 0, 0), pt(0, 1, 1), pt(-3, 0, 1), pt(-1, 1, 2), pt(-2, 1, -1), pt(-1, 0, -1), pt(-2, 0, 2), pt(1, 0, 1), pt(-1, 2, 0), pt(-2, 2, 1)]
+    return core, extra
+
+
+def _collides(p, q):
+    d = [i for i in range(3) if p[i] != q[i]]
+    if len(d) == 1:
+        i = d[0]
+        return {p[i], q[i]} == {F(-1), F(-2)} and all(p[j] in (0, 1) for j in range(3) if j != i)
+    if len(d) == 2:
+        i, j = d
+        k = 3 - i - j
+        return {p[i], p[j]} == {F(-1), F(-2)} and p[i] == q[j] and p[j] == q[i] and p[k] in (0, 1)
+    return False
+
+
+@st.composite
+def quirk_polyhedron(draw):
+    """a small polyhedron whose vertex set contains at least one pair of distinct lattice points with equal Point hash"""
+    core, extra = _quirk_points(draw)
+    mode = draw(st.integers(0, 3))
+    if mode == 0:  # the unit box x in [-2,-1], possibly taller along the last axis
+        hgt = draw(st.sampled_from(((0, 1), (-1, 1), (0, 2), (-1, 2))))
+        i = [k for k in range(3) if core[0][k] != core[4][k]][0]
+        ax = [k for k in range(3) if k != i]
+        pts = []
+        for x in (-1, -2):
+            for a in (0, 1):
+                for b in hgt:
+                    q = [F(0)] * 3
+                    q[i], q[ax[0]], q[ax[1]] = F(x), F(a), F(b)
+                    pts.append(tuple(q))
+    else:
+        m = draw(st.integers(3, 6))
+        pts = list(draw(st.lists(st.sampled_from(core), min_size=m, max_size=m, unique=True)))
+        pts += list(draw(st.lists(st.sampled_from(extra), min_size=1, max_size=3, unique=True)))
+    K = X.make_K(pts)
+    assume(_ok_K(K))
+    vs = K[1]
+    assume(any(_collides(p, q) for a, p in enumerate(vs) for q in vs[a + 1:]))
+    return K
+
+
+@st.composite
+def quirk_polygon(draw):
+    """a polygon (axis-parallel or oblique plane) whose vertex set contains a pair of points with equal Point hash"""
+    core, extra = _quirk_points(draw)
+    for _ in range(4):
+        m = draw(st.integers(3, 5))
+        pts = list(draw(st.lists(st.sampled_from(core + extra[:4]), min_size=m, max_size=m, unique=True)))
+        n = None
+        for a in range(len(pts)):
+            for b in range(a + 1, len(pts)):
+                for c in range(b + 1, len(pts)):
+                    w = X.cross(X.sub(pts[b], pts[a]), X.sub(pts[c], pts[a]))
+                    if not X.is_zero(w):
+                        n = w
+                        break
+                if n:
+                    break
+            if n:
+                break
+        if n is None:
+            continue
+        coplanar = [q for q in core + extra if X.dot(n, X.sub(q, pts[0])) == 0]
+        g = X.make_G(coplanar[:8], n) if len(coplanar) >= 3 else None
+        if g is not None and 3 <= len(g[1]) <= 8 and any(_collides(p, q) for a, p in enumerate(g[1]) for q in g[1][a + 1:]):
+            return g
+    assume(False)
+
+
 @st.composite
 def polygon(draw, nmin=3, nmax=8):
+    if nmin <= 4 and nmax >= 6 and draw(st.integers(0, 13)) == 0:
+        return draw(quirk_polygon())
     fr_ = draw(frame())
     sh = draw(shape2(nmin, nmax))
     h = draw(st.sampled_from((1, 1, 1, 2)))  # half-lattice scaling
@@ -111,7 +195,9 @@ def _ok_K(K, vmax=10, smax=6):
 
 @st.composite
 def polyhedron(draw, family=None):
-    fam = family or draw(st.sampled_from(["tetra", "box", "para", "prism", "pyramid", "bipyramid", "hull"]))
+    fam = family or draw(st.sampled_from(["tetra", "box", "para", "prism", "pyramid", "bipyramid", "hull"] * 2 + ["quirk"]))
+    if fam == "quirk":
+        return draw(quirk_polyhedron())
     if fam == "tetra":
         pts = [tuple(F(draw(st.integers(-3, 3))) for _ in range(3)) for _ in range(4)]
     elif fam in ("box", "para"):
